@@ -727,31 +727,51 @@ func convertMap(m map[string]any) error {
 		curr := queue[0]
 
 		for k, v := range curr {
-			mm, ok := v.(map[any]any)
-			if !ok {
-				// TODO: do we need to return an error here?
-				continue
+			conv, err := convertValue(v, &queue)
+			if err != nil {
+				return err
 			}
-
-			ret := make(map[string]any)
-			for kk, vv := range mm {
-				key, err := parseKey(kk)
-				if err != nil {
-					return fmt.Errorf(
-						"%w: %s", errExecutorConfigMustBeString, err,
-					)
-				}
-				ret[key] = vv
-			}
-
-			delete(curr, k)
-			curr[k] = ret
-			queue = append(queue, ret)
+			curr[k] = conv
 		}
 		queue = queue[1:]
 	}
 
 	return nil
+}
+
+// convertValue converts v if it is a map[any]any, and converts the maps
+// contained in v if it is a list (a map in a list must be converted as well,
+// otherwise the config cannot be serialized to JSON). Converted maps are
+// appended to the queue so that their values are converted in turn.
+func convertValue(v any, queue *[]map[string]any) (any, error) {
+	switch vv := v.(type) {
+	case map[any]any:
+		ret := make(map[string]any)
+		for kk, val := range vv {
+			key, err := parseKey(kk)
+			if err != nil {
+				return nil, fmt.Errorf(
+					"%w: %s", errExecutorConfigMustBeString, err,
+				)
+			}
+			ret[key] = val
+		}
+		*queue = append(*queue, ret)
+		return ret, nil
+
+	case []any:
+		for i, elem := range vv {
+			conv, err := convertValue(elem, queue)
+			if err != nil {
+				return nil, err
+			}
+			vv[i] = conv
+		}
+		return vv, nil
+	}
+
+	// TODO: do we need to return an error here?
+	return v, nil
 }
 
 // buildConfigEnv builds the environment variables from the map.
